@@ -1,9 +1,13 @@
 import Driver.Common
 import Driver.Replay
 import Driver.Ring
+import Driver.Loss
+import Driver.Xor
 
 def main (args : List String) : IO UInt32 := do
   match args with
   | ["replay", mode] => Driver.runComponent (Driver.Replay.comp mode); return 0
   | ["ring"] => Driver.runComponent Driver.Ring.comp; return 0
+  | ["loss"] => Driver.runComponent Driver.Loss.comp; return 0
+  | ["xor"] => Driver.runComponent Driver.Xor.comp; return 0
   | _ => IO.eprintln "usage: vdrv <component> [args]"; return 2
